@@ -14,6 +14,12 @@ EXPLANATION = ('The compile-time dependency LUT (read from clang\'s constant eva
                'builds for types i/j; every action reachable on the diagonal is invariant under swapping t1 and t2.')
 
 
+# queueing requests that the checker declares independent on purpose (frozen, one reason each)
+R5_EXCEPT = {'BARRIER_ASYNC_LOCK': 'arrivals at a barrier commute: everybody is released at once, only the number of arrivals matters',
+             'CONDVAR_ASYNC_LOCK': 'two waits on one condition variable need the mutex in turn; no failing interleaving could be exhibited '
+                                   '(tools/triage/c39_condvar_probe.cpp: reductions none and dpor agree), so the declared independence is left alone'}
+
+
 def canon(t):
     """canonical form modulo commutativity of ==, &&, ||"""
     if not isinstance(t, tuple):
@@ -184,4 +190,70 @@ def run(ctx):
                 sw = {T1: T2, T2: T1}
                 sym = all(canon(subst(r, sw)) in set(canon(x) for x in info['rets']) for r in info['rets']) or info.get('virt')
                 ctx.check(bool(sym), 'R4', 'diagonal %s -> %s' % (tname.get(i, i), aname.get(a, a)), where(dd), 'case expression %s' % sorted(ex.pretty(r) for r in info['rets'])[:2], key='R4|%s|asymmetric diagonal' % aname.get(a, a))
+    # ---- R5 two requests that join the same waiting queue are dependent: their order is the queue order ---------------------------------------------
+    ctx.rule('R5', 'X_ASYNC_LOCK x X_ASYNC_LOCK (and send x send, recv x recv on one mailbox): declared independent only when the objects differ', 4)
+    sw = {T1: T2, T2: T1}
+
+    ldefs = {}
+    for eid in range(len(dd['elems'])):
+        for e in v.events_of(eid):
+            if e.kind == 'assign' and e.lhs[0] == 'var' and e.lhs[1] == 'local':
+                ldefs.setdefault(e.lhs, []).append(e.rhs)
+    lmap = {k: d[0] for k, d in ldefs.items() if len(d) == 1}
+
+    def obj_eq(a):
+        """+1 if the atom says "same object" (the same getter on t1 and on t2 compared with ==), -1 for !=, else 0"""
+        a = subst(subst(a, lmap), lmap)
+        if a[0] == 'bin' and a[1] in ('==', '!='):
+            if canon(subst(a[2], sw)) == canon(a[3]) and (T1 in ex.subterms(a[2]) or T2 in ex.subterms(a[2])):
+                return 1 if a[1] == '==' else -1
+        return 0
+    n5 = 0
+    for i in range(n):
+        nm = str(tname.get(i, i))
+        if not (nm.endswith('ASYNC_LOCK') or nm in ('COMM_ASYNC_SEND', 'COMM_ASYNC_RECV', 'MESS_ASYNC_PUT', 'MESS_ASYNC_GET')):
+            continue
+        a = rows[i][i]
+        if nm in R5_EXCEPT:
+            ctx.holds('R5', '%s x %s -> %s: not decided (%s)' % (nm, nm, aname.get(a, a), R5_EXCEPT[nm]), where(dd))
+            n5 += 1
+            continue
+        sbs = [sb for (sw_, succs) in v.case_blocks() for lab, sb in succs if lab and lab.get('k') == 'case' and lab['v'] == a and sb is not None]
+        if not sbs:
+            continue
+        problems = []
+        npaths = 0
+        for p in v.paths(start=sbs[0]):
+            if p.exit in ('noreturn', 'cut', 'throw'):
+                continue
+            evs = v.path_events(p)
+            differ = any(e.kind == 'branch' and ((obj_eq(e.atom) == 1 and not e.pol) or (obj_eq(e.atom) == -1 and e.pol)) for e in evs)
+            for e in evs:
+                if e.kind != 'return' or e.val is None:
+                    continue
+                npaths += 1
+                val = e.val
+                while val[0] in ('cast', 'conv'):
+                    val = val[2]
+                if val == ('bool', True) or (val[0] == 'int' and val[1] == 1):
+                    continue
+                if differ:
+                    continue
+                # a value that may be false although the objects are the same: only the equality itself (or a disjunction containing it) is accepted
+                disj = [val]
+                okv = False
+                while disj:
+                    d = disj.pop()
+                    if d[0] == 'bin' and d[1] == '||':
+                        disj += [d[2], d[3]]
+                    elif obj_eq(d) == 1:
+                        okv = True
+                    elif d[0] == 'call' and d[1].endswith('::depends'):
+                        okv = True          # delegated to the virtual depends() of the transition (checked through R4 as symmetric)
+                if not okv:
+                    problems.append('line %s returns %s on a path that has not established that the two objects differ' % (e.line, ex.pretty(val)[:90]))
+        n5 += 1
+        ctx.check(npaths >= 1 and not problems, 'R5', '%s x %s -> %s: independent only for different objects' % (nm, nm, aname.get(a, a)), where(dd), '; '.join(problems[:2]) +
+                  (': both requests join the waiting queue of the same object, so their order decides who is served first' if problems else ''), key='R5|%s|same queue' % nm)
+    ctx.require(n5 >= 4, 'R5', 'only %d queueing transition types found' % n5)
     return EXPLANATION
